@@ -8,9 +8,8 @@ namespace Ws
 
 /-- number of bytes up to and including the first CR LF CR LF -/
 def headEnd : Bytes → Option Nat
-  | 13 :: 10 :: 13 :: 10 :: _ => some 4
-  | _ :: r => (headEnd r).map (· + 1)
   | [] => none
+  | x :: r => if (x :: r).take 4 == [13, 10, 13, 10] then some 4 else (headEnd r).map (· + 1)
 
 /-- the only status line in scope: what precedes the reason phrase of a 101 response.  The real client parser checks the
     response byte by byte; of that, the model keeps this much: the bytes seen so far must agree with this prefix, anything
@@ -39,5 +38,13 @@ def upParse (g : Cfg) (e : Env) (u : UpS) (data : Bytes) : UpS × PR :=
     | some n =>
       let r := parse g e u.s (buf.drop n)
       ({ head := [], upgraded := true, s := r.s }, r)
+
+/-- successive `Parser.Parse` calls of the client connection; stops at the first error (the engine closes the conn) -/
+def upFeed (g : Cfg) (e : Env) : UpS → List Bytes → List Act → UpS × PR
+  | u, [], acts => (u, ⟨u.s, acts, none⟩)
+  | u, seg :: segs, acts =>
+    match (upParse g e u seg).2.err with
+    | some er => ((upParse g e u seg).1, ⟨(upParse g e u seg).2.s, acts ++ (upParse g e u seg).2.acts, some er⟩)
+    | none => upFeed g e (upParse g e u seg).1 segs (acts ++ (upParse g e u seg).2.acts)
 
 end Ws
